@@ -1561,6 +1561,108 @@ Section RevealBefore.
     Qed.
   End Commute.
 
+
+  (* ---- the joint invariant of a fragment with sb words revealed on its left and sa pointers on its right ------------------- *)
+  Definition K (l : left) (r : state) (sb sa : nat) : Prop :=
+    Forall good' (l_ptrs l) /\ length (s_bo r) = length (s_words r) /\
+    (l_full l = false -> chain N_order sb (l_ptrs l) /\ length (s_words r) + sa = length (l_ptrs l) + sb /\ s_words r <> []).
+
+  Lemma K_BJ : forall l r sb sa, K l r sb sa -> BJ l r sb.
+  Proof. intros l r sb sa [H1 [H2 H3]]. split; [exact H1|]. split; [exact H2|]. intros Hf. destruct (H3 Hf) as [C [E _]]. split; [exact C|lia]. Qed.
+  Lemma K_J : forall l r sb sa, K l r sb sa -> J l r sa.
+  Proof. intros l r sb sa [H1 [H2 H3]]. split; [exact H2|]. intros Hf. destruct (H3 Hf) as [_ [E _]]. lia. Qed.
+
+  Lemma chain_app_intro : forall P Q k, chain N_order k P -> chain N_order (k + length P) Q -> chain N_order k (P ++ Q).
+  Proof.
+    induction P as [|p P IH]; intros Q k HP HQ; cbn [app length] in *; [rewrite Nat.add_0_r in HQ; exact HQ|].
+    destruct HP as [H1 [H2 H3]]. cbn [chain]. repeat split; try assumption. apply IH; [exact H3|].
+    replace (S k + length P) with (k + S (length P)) by lia. exact HQ.
+  Qed.
+
+  Lemma good_ne : forall P, Forall good' P -> Forall (fun p : key => p <> []) P.
+  Proof.
+    intros P H. apply Forall_forall. intros p Hin. rewrite Forall_forall in H. specialize (H p Hin). unfold good' in H.
+    destruct p; [cbn in H; lia|discriminate].
+  Qed.
+
+  (* RevealBefore keeps it *)
+  Lemma rbf_K : forall A2 B2 l r sb sa, A2 <> [] -> length B2 = length A2 -> K l r sb sa ->
+    let '(x, l1, r1) := rbf A2 B2 l r in K l1 r1 (sb + length A2) sa.
+  Proof.
+    intros A2 B2 l r sb sa HA2 HB2 [HG [Hsw Hopen]].
+    unfold rbf. rewrite xl_run. cbn zeta.
+    set (s20 := {| md := true; wr := []; aj := 0%Z; nx := length A2; bk := firstn (length A2) B2 |}).
+    set (sf := run A2 (l_ptrs l) s20).
+    assert (I20 : W1inv A2 s20) by (intros _; unfold s20; cbn [nx bk]; split; [reflexivity|rewrite firstn_length; lia]).
+    destruct (run1_facts A2 A2 HA2 (l_ptrs l) s20 HG I20 ltac:(constructor)) as [If [Gf Kf]]. fold sf in If, Gf, Kf.
+    destruct (run_bounds A2 (l_ptrs l) s20 (good_ne _ HG) ltac:(unfold s20; cbn [nx]; lia) ltac:(unfold s20; cbn [nx bk]; rewrite firstn_length; lia)) as [Bn1 Bn2].
+    fold sf in Bn1, Bn2. cbn [x_adjust x_make_full x_next_use].
+    destruct (l_full l) eqn:Ef.
+    - split; [exact Gf|]. split; [exact Hsw|]. cbn [l_full]. discriminate.
+    - destruct (Hopen eq_refl) as [HC [HE Hne]].
+      split; [exact Gf|]. split; [cbn [s_bo s_words]; rewrite !app_length, !firstn_length; lia|].
+      cbn [l_full l_ptrs s_words]. intros Hf. apply orb_false_iff in Hf. destruct Hf as [Hf _]. apply orb_false_iff in Hf. destruct Hf as [Hm _].
+      apply negb_false_iff in Hm. destruct (Kf Hm) as [_ [HW HF]]. destruct (If Hm) as [X _].
+      unfold s20 in HW. cbn [wr app] in HW. rewrite HW, X, firstn_all.
+      split; [apply (chain_map_app A2 A2); assumption|]. split; [rewrite app_length, map_length; unfold key in *; lia|].
+      intros Z. apply app_eq_nil in Z. destruct Z as [Z _]. exact (Hne Z).
+  Qed.
+
+  (* RevealAfter keeps it *)
+  Lemma ra_K : forall l r Q sb sa, K l r sb sa -> chain N_order sa Q ->
+    let '(x, l1, r1) := ra N_order T dr l r Q in K l1 r1 sb (sa + length Q).
+  Proof.
+    intros l r Q sb sa [HG [Hsw Hopen]] HCQ.
+    pose proof (chain_good _ _ HCQ) as GQ.
+    rewrite ra_unfold.
+    destruct (l_full l) eqn:Ef; cbn [negb].
+    - rewrite xl_run_full. cbn zeta.
+      set (s0 := {| md := false; wr := []; aj := 0%Z; nx := length (s_words r); bk := firstn (length (s_words r)) (s_bo r) |}).
+      destruct (run_bounds (s_words r) Q s0 (good_ne _ GQ) ltac:(unfold s0; cbn [nx]; lia) ltac:(unfold s0; cbn [nx bk]; rewrite firstn_length; lia)) as [Bn1 Bn2].
+      cbn [x_adjust x_make_full x_next_use].
+      split; [exact HG|]. split; [cbn [s_bo s_words]; rewrite !firstn_length; lia|]. intros Hf. congruence.
+    - destruct (Hopen eq_refl) as [HC [HE Hne]].
+      rewrite xl_run. cbn zeta.
+      set (A1 := s_words r) in *.
+      set (s10 := {| md := true; wr := []; aj := 0%Z; nx := length A1; bk := firstn (length A1) (s_bo r) |}).
+      set (sf := run A1 Q s10).
+      assert (I10 : W1inv A1 s10) by (intros _; unfold s10; cbn [nx bk]; split; [reflexivity|rewrite firstn_length; lia]).
+      destruct (run1_facts A1 A1 Hne Q s10 GQ I10 ltac:(constructor)) as [If [Gf Kf]]. fold sf in If, Gf, Kf.
+      destruct (run_bounds A1 Q s10 (good_ne _ GQ) ltac:(unfold s10; cbn [nx]; lia) ltac:(unfold s10; cbn [nx bk]; rewrite firstn_length; lia)) as [Bn1 Bn2].
+      fold sf in Bn1, Bn2. cbn [x_adjust x_make_full x_next_use].
+      split; [cbn [l_ptrs]; apply Forall_app; split; [exact HG|exact Gf]|].
+      split; [cbn [s_bo s_words]; rewrite !firstn_length; lia|].
+      cbn [l_full l_ptrs s_words]. intros Hf. apply orb_false_iff in Hf. destruct Hf as [Hf _]. apply orb_false_iff in Hf. destruct Hf as [Hm _].
+      apply negb_false_iff in Hm. destruct (Kf Hm) as [_ [HW HF]]. destruct (If Hm) as [X _].
+      unfold s10 in HW. cbn [wr app] in HW. rewrite HW, X, firstn_all.
+      split.
+      + apply chain_app_intro; [exact HC|]. replace (sb + length (l_ptrs l)) with (sa + length A1) by (unfold key in *; lia).
+        apply (chain_map_app A1 A1); assumption.
+      + split; [rewrite app_length, map_length; unfold key in *; lia|exact Hne].
+  Qed.
+
+
+  Lemma commute : forall A2 B2 l r Q sb sa, A2 <> [] -> length B2 = length A2 -> K l r sb sa -> chain N_order sa Q ->
+    sb + length A2 <= N_order - 1 ->
+    (let '(x1, l1, r1) := rbf A2 B2 l r in let '(x2, l2, r2) := ra N_order T dr l1 r1 Q in ((x1 + x2)%Z, l2, r2)) =
+    (let '(y1, l1', r1') := ra N_order T dr l r Q in let '(y2, l2', r2') := rbf A2 B2 l1' r1' in ((y1 + y2)%Z, l2', r2')).
+  Proof.
+    intros A2 B2 l r Q sb sa HA2 HB2 HK HCQ Hu.
+    destruct (l_full l) eqn:Ef.
+    - (* complete left state: RevealAfter only walks (no writing, left untouched), RevealBefore does not look at the right state *)
+      unfold rbf. rewrite !ra_unfold. rewrite Ef. cbn [negb].
+      destruct (extend_loop N_order T dr A2 B2 (l_ptrs l) true) as [[v1 w1] bw1] eqn:E1.
+      cbn [l_full l_ptrs s_words s_bo negb]. rewrite ra_unfold. cbn [l_full negb].
+      destruct (extend_loop N_order T dr (s_words r) (s_bo r) Q false) as [[v2 w2] bw2] eqn:E2.
+      cbn [l_full l_ptrs]. rewrite Ef, E1. f_equal. f_equal. lia.
+    - destruct HK as [HG [Hsw Hopen]]. destruct (Hopen Ef) as [HC [HE Hne]].
+      pose proof (commute_open (s_words r) A2 Hne HA2 B2 l r Q sb sa eq_refl HB2 Ef
+                    (K_BJ l r sb sa (conj HG (conj Hsw Hopen))) (K_J l r sb sa (conj HG (conj Hsw Hopen))) HCQ Hu) as H.
+      destruct (rbf A2 B2 l r) as [[x1 l1] r1]. destruct (ra N_order T dr l1 r1 Q) as [[x2 l2] r2].
+      destruct (ra N_order T dr l r Q) as [[y1 l1'] r1']. destruct (rbf A2 B2 l1' r1') as [[y2 l2'] r2'].
+      destruct H as [H1 [H2 H3]]. rewrite H1, H2, H3. reflexivity.
+  Qed.
+
   (* ---- on the revealed state itself ------------------------------------------------------------------------------ *)
   Definition rvc (W : list word) (Bk : list boval) (c : nat) : state := {| s_words := firstn c W; s_bo := firstn c Bk |}.
 
@@ -1621,6 +1723,137 @@ Section RevealBefore.
       destruct (reveal_before N_order T dr (rvc W Bk c) seen false l r) as [[a1 l1] r1]. destruct HT as [HT HJ1].
       rewrite HT. rewrite (IH c' W Bk l1 r1 c HL HN HJ1 Hi). fold d. reflexivity.
   Qed.
+
+
+  (* ---- any interleaving of the instalments of the two sides -------------------------------------------------------------- *)
+  Inductive op := OB (c : nat) | OA (c : nat).       (* RevealBefore up to c words / RevealAfter up to c pointers *)
+  Fixpoint run_ops (W : list word) (Bk : list boval) (P : list key) (l : left) (r : state) (sb sa : nat) (ops : list op)
+    : Z * left * state :=
+    match ops with
+    | [] => (0%Z, l, r)
+    | OB c :: t =>
+        let '(x, l1, r1) := reveal_before N_order T dr (rvc W Bk c) sb false l r in
+        let '(y, l2, r2) := run_ops W Bk P l1 r1 c sa t in ((x + y)%Z, l2, r2)
+    | OA c :: t =>
+        let '(x, l1, r1) := reveal_after N_order T dr l r {| l_ptrs := firstn c P; l_full := false |} sa in
+        let '(y, l2, r2) := run_ops W Bk P l1 r1 sb c t in ((x + y)%Z, l2, r2)
+    end.
+  Fixpoint bcuts (ops : list op) : list nat := match ops with [] => [] | OB c :: t => c :: bcuts t | OA _ :: t => bcuts t end.
+  Fixpoint acuts (ops : list op) : list nat := match ops with [] => [] | OA c :: t => c :: acuts t | OB _ :: t => acuts t end.
+
+  Section Interleave.
+    Variable W : list word.
+    Variable Bk : list boval.
+    Variable P : list key.
+    Hypothesis HBk : length Bk = length W.
+    Hypothesis HWN : length W <= N_order - 1.
+    Hypothesis HCP : chain N_order 0 P.
+
+    Definition vops (sb sa : nat) (ops : list op) : Prop :=
+      sincreasing sb (bcuts ops) (length W) /\ increasing sa (acuts ops) (length P).
+
+    Lemma step_b_K : forall l r sb sa c, K l r sb sa -> sb < c -> c <= length W ->
+      let '(x, l1, r1) := reveal_before N_order T dr (rvc W Bk c) sb false l r in K l1 r1 c sa.
+    Proof.
+      intros l r sb sa c HK H1 H2. rewrite rb_unfold. unfold rvc. cbn [s_words s_bo].
+      set (A2 := skipn sb (firstn c W)). set (B2 := skipn sb (firstn c Bk)).
+      assert (L1 : length A2 = c - sb) by (unfold A2; rewrite skipn_length, firstn_length; lia).
+      assert (L2 : length B2 = c - sb) by (unfold B2; rewrite skipn_length, firstn_length; lia).
+      assert (N2 : A2 <> []) by (intros E; rewrite E in L1; cbn in L1; lia).
+      assert (L21 : length B2 = length A2) by lia.
+      pose proof (rbf_K A2 B2 l r sb sa N2 L21 HK) as H. destruct (rbf A2 B2 l r) as [[x l1] r1].
+      rewrite L1 in H. replace (sb + (c - sb)) with c in H by lia. exact H.
+    Qed.
+
+    Lemma chain_chunk : forall sa d, sa <= d -> d <= length P -> chain N_order sa (skipn sa (firstn d P)).
+    Proof.
+      intros sa d H1 H2. apply (chain_skipn N_order Hord (firstn d P) 0 sa). apply chain_firstn. exact HCP.
+    Qed.
+
+    Lemma step_a_K : forall l r sb sa d, K l r sb sa -> sa <= d -> d <= length P ->
+      let '(x, l1, r1) := reveal_after N_order T dr l r {| l_ptrs := firstn d P; l_full := false |} sa in K l1 r1 sb d.
+    Proof.
+      intros l r sb sa d HK H1 H2. rewrite ra_seen.
+      pose proof (ra_K l r (skipn sa (firstn d P)) sb sa HK (chain_chunk sa d H1 H2)) as H.
+      destruct (ra N_order T dr l r (skipn sa (firstn d P))) as [[x l1] r1].
+      rewrite skipn_length, firstn_length in H. replace (sa + (Nat.min d (length P) - sa)) with d in H by lia. exact H.
+    Qed.
+
+    Lemma swap_ab : forall l r sb sa c d t, K l r sb sa -> sb < c -> c <= length W -> sa <= d -> d <= length P ->
+      run_ops W Bk P l r sb sa (OA d :: OB c :: t) = run_ops W Bk P l r sb sa (OB c :: OA d :: t).
+    Proof.
+      intros l r sb sa c d t HK H1 H2 H3 H4. cbn [run_ops].
+      set (A2 := skipn sb (firstn c W)). set (B2 := skipn sb (firstn c Bk)). set (Q := skipn sa (firstn d P)).
+      assert (L1 : length A2 = c - sb) by (unfold A2; rewrite skipn_length, firstn_length; lia).
+      assert (L2 : length B2 = c - sb) by (unfold B2; rewrite skipn_length, firstn_length; lia).
+      assert (N2 : A2 <> []) by (intros E; rewrite E in L1; cbn in L1; lia).
+      assert (L21 : length B2 = length A2) by lia.
+      assert (Hu : sb + length A2 <= N_order - 1) by lia.
+      pose proof (commute A2 B2 l r Q sb sa N2 L21 HK (chain_chunk sa d H3 H4) Hu) as HCm.
+      assert (RB : forall l0 r0, reveal_before N_order T dr (rvc W Bk c) sb false l0 r0 = rbf A2 B2 l0 r0) by (intros; rewrite rb_unfold; reflexivity).
+      assert (RA : forall l0 r0, reveal_after N_order T dr l0 r0 {| l_ptrs := firstn d P; l_full := false |} sa = ra N_order T dr l0 r0 Q) by (intros; rewrite ra_seen; reflexivity).
+      rewrite (RA l r), (RB l r).
+      destruct (ra N_order T dr l r Q) as [[y1 l1'] r1']. rewrite (RB l1' r1').
+      destruct (rbf A2 B2 l r) as [[x1 l1] r1]. rewrite (RA l1 r1).
+      destruct (rbf A2 B2 l1' r1') as [[y2 l2'] r2']. destruct (ra N_order T dr l1 r1 Q) as [[x2 l2] r2].
+      injection HCm as E1 E2 E3. subst l2' r2'.
+      destruct (run_ops W Bk P l2 r2 c d t) as [[z l3] r3]. f_equal. f_equal. lia.
+    Qed.
+
+    Lemma bcuts_map_OB : forall x, bcuts (map OB x) = x.
+    Proof. induction x as [|c x IH]; cbn; [reflexivity|rewrite IH; reflexivity]. Qed.
+    Lemma acuts_map_OB : forall x, acuts (map OB x) = [].
+    Proof. induction x as [|c x IH]; cbn; [reflexivity|exact IH]. Qed.
+    Lemma bcuts_app : forall a b, bcuts (a ++ b) = bcuts a ++ bcuts b.
+    Proof. induction a as [|o a IH]; intros b; cbn; [reflexivity|]. destruct o; cbn; rewrite IH; reflexivity. Qed.
+
+    Lemma move_a : forall bc d rest l r sb sa, K l r sb sa -> sincreasing sb bc (length W) -> sa <= d -> d <= length P ->
+      run_ops W Bk P l r sb sa (OA d :: map OB bc ++ rest) = run_ops W Bk P l r sb sa (map OB bc ++ OA d :: rest).
+    Proof.
+      induction bc as [|c bc IH]; intros d rest l r sb sa HK Hi H3 H4; [reflexivity|].
+      cbn [map app]. destruct Hi as [H1 Hi]. pose proof (sincreasing_last _ _ _ Hi) as HL.
+      assert (H2 : c <= length W) by lia.
+      rewrite (swap_ab l r sb sa c d (map OB bc ++ rest) HK H1 H2 H3 H4).
+      cbn [run_ops]. pose proof (step_b_K l r sb sa c HK H1 H2) as HK1.
+      destruct (reveal_before N_order T dr (rvc W Bk c) sb false l r) as [[x l1] r1].
+      change (let '(y, l2, r2) := run_ops W Bk P l1 r1 c sa (OA d :: map OB bc ++ rest) in ((x + y)%Z, l2, r2)) with
+             (let '(y, l2, r2) := run_ops W Bk P l1 r1 c sa (OA d :: map OB bc ++ rest) in ((x + y)%Z, l2, r2)).
+      rewrite <- (IH d rest l1 r1 c sa HK1 Hi H3 H4). reflexivity.
+    Qed.
+
+    Theorem sort_ops : forall ops l r sb sa, K l r sb sa -> vops sb sa ops ->
+      run_ops W Bk P l r sb sa ops = run_ops W Bk P l r sb sa (map OB (bcuts ops) ++ map OA (acuts ops)).
+    Proof.
+      induction ops as [|o t IH]; intros l r sb sa HK [Vb Va]; [reflexivity|].
+      destruct o as [c|d].
+      - cbn [bcuts acuts map app run_ops] in *. destruct Vb as [H1 Vb]. pose proof (sincreasing_last _ _ _ Vb) as HL.
+        assert (H2 : c <= length W) by lia.
+        pose proof (step_b_K l r sb sa c HK H1 H2) as HK1.
+        destruct (reveal_before N_order T dr (rvc W Bk c) sb false l r) as [[x l1] r1].
+        rewrite (IH l1 r1 c sa HK1 (conj Vb Va)). reflexivity.
+      - cbn [bcuts acuts map] in *. destruct Va as [H3 Va]. pose proof (increasing_last N_order Hord _ _ _ Va) as HL.
+        assert (H4 : d <= length P) by lia.
+        rewrite <- (move_a (bcuts t) d (map OA (acuts t)) l r sb sa HK Vb H3 H4).
+        cbn [run_ops]. pose proof (step_a_K l r sb sa d HK H3 H4) as HK1.
+        destruct (reveal_after N_order T dr l r {| l_ptrs := firstn d P; l_full := false |} sa) as [[x l1] r1].
+        rewrite (IH l1 r1 sb d HK1 (conj Vb Va)). reflexivity.
+    Qed.
+
+    Lemma run_sorted : forall bc ac l r sb sa,
+      run_ops W Bk P l r sb sa (map OB bc ++ map OA ac) =
+      (let '(x, l1, r1) := rb_seq W Bk l r sb bc in
+       let '(y, l2, r2) := ra_seq N_order T dr l1 r1 P sa ac in ((x + y)%Z, l2, r2)).
+    Proof.
+      induction bc as [|c bc IH]; intros ac l r sb sa.
+      - cbn [map app rb_seq]. revert l r sa. induction ac as [|d ac IHa]; intros l r sa; cbn [map run_ops ra_seq]; [reflexivity|].
+        destruct (reveal_after N_order T dr l r {| l_ptrs := firstn d P; l_full := false |} sa) as [[x l1] r1].
+        rewrite IHa. destruct (ra_seq N_order T dr l1 r1 P d ac) as [[y l2] r2]. repeat (f_equal; try lia).
+      - cbn [map app run_ops rb_seq].
+        destruct (reveal_before N_order T dr (rvc W Bk c) sb false l r) as [[x l1] r1].
+        rewrite IH. destruct (rb_seq W Bk l1 r1 c bc) as [[x' l1'] r1'].
+        destruct (ra_seq N_order T dr l1' r1' P sa ac) as [[y l2] r2]. repeat (f_equal; try lia).
+    Qed.
+  End Interleave.
 
   (* ---- the closing call: RevealBefore(reveal, seen = reveal.length, reveal_full = true) ---------------------------------
      Writing pointers (rest costs) and converting them afterwards (UnRest) is the same as never writing them (probabilities). *)
@@ -1693,6 +1926,44 @@ Section RevealBefore.
                     (Nat.eqb (length (s_words r ++ firstn (nx sw) W)) (N_order - 1))); cbn [l_ptrs].
       + rewrite XC. cbn [x_adjust x_next_use]. unfold sum_bo. cbn [fold_right]. repeat (f_equal; try lia).
       + rewrite XC. cbn [x_adjust x_next_use firstn s_words s_bo orb]. rewrite !app_nil_r. repeat (f_equal; try lia).
+  Qed.
+
+
+  (* the closing call of the left-hand side: what it is, and that it commutes with a RevealAfter call *)
+  Lemma rb_closing : forall rv l r, length (s_bo rv) = length (s_words rv) ->
+    reveal_before N_order T dr rv (length (s_words rv)) true l r =
+    (unr (l_ptrs l), {| l_ptrs := []; l_full := true |}, {| s_words := s_words r; s_bo := s_bo r |}).
+  Proof.
+    intros rv l r HL. destruct r as [rw rb]. unfold reveal_before. cbn [negb s_words s_bo]. rewrite skipn_all. rewrite (skipn_all2 (n := length (s_words rv)) (s_bo rv)) by lia.
+    rewrite xl_run_full. cbn zeta. cbn [length firstn]. rewrite run_stopped. cbn [aj nx bk firstn x_adjust x_make_full x_next_use].
+    destruct (l_full l); cbn [orb]; rewrite ?app_nil_r; unfold sum_bo; cbn [fold_right]; repeat (f_equal; try lia).
+  Qed.
+
+  Lemma closing_commutes_ra : forall rv l r Q sb sa, length (s_bo rv) = length (s_words rv) -> K l r sb sa -> chain N_order sa Q ->
+    (let '(y, l1, r1) := ra N_order T dr l r Q in
+     let '(z, l2, r2) := reveal_before N_order T dr rv (length (s_words rv)) true l1 r1 in ((y + z)%Z, l2, r2)) =
+    (let '(z, l1, r1) := reveal_before N_order T dr rv (length (s_words rv)) true l r in
+     let '(y, l2, r2) := ra N_order T dr l1 r1 Q in ((z + y)%Z, l2, r2)).
+  Proof.
+    intros rv l r Q sb sa HL [HG [Hsw Hopen]] HCQ.
+    pose proof (chain_good _ _ HCQ) as GQ.
+    rewrite (rb_closing rv l r HL). rewrite !ra_unfold. cbn [l_full negb s_words s_bo].
+    destruct (l_full l) eqn:Ef; cbn [negb].
+    - destruct (extend_loop N_order T dr (s_words r) (s_bo r) Q false) as [[v w] bw]. rewrite (rb_closing rv l _ HL).
+      cbn [s_words s_bo l_ptrs]. repeat (f_equal; try lia).
+    - destruct (Hopen eq_refl) as [HC [HE Hne]].
+      rewrite xl_run, xl_run_full. cbn zeta.
+      set (A1 := s_words r) in *.
+      set (sw0 := {| md := true; wr := []; aj := 0%Z; nx := length A1; bk := firstn (length A1) (s_bo r) |}).
+      set (sf0 := {| md := false; wr := []; aj := 0%Z; nx := length A1; bk := firstn (length A1) (s_bo r) |}).
+      assert (R0 : Rw A1 sw0 sf0).
+      { unfold Rw, sw0, sf0. cbn [md aj nx bk wr]. rewrite unr_nil''. split; [reflexivity|]. split; [lia|]. split; [reflexivity|]. split; [reflexivity|].
+        split; [reflexivity|]. intros _. split; [reflexivity|rewrite firstn_length; lia]. }
+      destruct (Rw_run A1 Hne Q sw0 sf0 GQ R0) as [F1 [F2 [F3 [F4 [F5 F6]]]]].
+      set (sw := run A1 Q sw0) in *. set (sf := run A1 Q sf0) in *.
+      cbn [x_adjust x_make_full x_next_use l_ptrs].
+      rewrite (rb_closing rv _ _ HL). cbn [l_ptrs s_words s_bo].
+      rewrite F2, F3, F4. rewrite (unr_app' N_order Hord). repeat (f_equal; try lia).
   Qed.
 
   (* ---- fragments ---------------------------------------------------------------------------------------------------- *)
@@ -1870,6 +2141,41 @@ Section RevealBefore.
         * split; [lia|]. intros _. rewrite app_length. lia.
   Qed.
 
+
+  (* a non-empty fragment whose left state is still open has recorded at least one pointer (and as many right-state words) *)
+  Lemma term_progress : forall X w, rs_done X = true \/ rs_ptrs X <> [] ->
+    rs_done (rs_terminal N_order T X w) = true \/ rs_ptrs (rs_terminal N_order T X w) <> [].
+  Proof.
+    intros X w H. unfold rs_terminal. destruct (full_score N_order T (rs_right X) w) as [ret out].
+    destruct (rs_done X) eqn:Ed; [left; reflexivity|]. destruct (r_indep ret); [left; reflexivity|].
+    right. cbn [rs_ptrs]. intros Z. apply app_eq_nil in Z. destruct Z as [_ Z]. discriminate.
+  Qed.
+  Lemma flat_progress : forall ws X, rs_done X = true \/ rs_ptrs X <> [] ->
+    rs_done (flatf X ws) = true \/ rs_ptrs (flatf X ws) <> [].
+  Proof.
+    induction ws as [|w ws IH]; intros X H; [exact H|]. cbn [flat fold_left]. apply IH. apply term_progress. exact H.
+  Qed.
+  Lemma frag_K : forall ws, ws <> [] -> Forall (known T) ws ->
+    let Mf := fin (flatf rs_init ws) in K (c_left (fst Mf)) (c_right (fst Mf)) 0 0.
+  Proof.
+    intros ws Hne Hw Mf.
+    assert (W0 : wf rs_init) by (constructor; cbn; [reflexivity|constructor|reflexivity]).
+    assert (WM : wf (flatf rs_init ws)) by (apply flat_wf; [exact Hord|exact W0]).
+    pose proof (fin_cwf N_order _ WM) as CM. fold Mf in CM. destruct CM as [C1 C2 C3].
+    assert (HCM : chain N_order 0 (l_ptrs (c_left (fst Mf)))).
+    { unfold Mf. rewrite fin_eq. cbn [fst mkchart c_left l_ptrs]. apply (flat_chain N_order Hord T M Inv ext_ctx); [exact W0|exact Hw|exact I]. }
+    split; [exact (chain_good _ _ HCM)|]. split; [exact C1|]. intros Hf. split; [exact HCM|]. split; [rewrite (C3 Hf); lia|].
+    destruct ws as [|w ws']; [congruence|].
+    assert (HP : rs_done (flatf rs_init (w :: ws')) = true \/ rs_ptrs (flatf rs_init (w :: ws')) <> []).
+    { cbn [flat fold_left]. apply flat_progress. unfold rs_terminal.
+      destruct (full_score N_order T (rs_right rs_init) w) as [ret out]. cbn [rs_init rs_done].
+      destruct (r_indep ret); [left; reflexivity|right; cbn [rs_ptrs]; discriminate]. }
+    unfold Mf in Hf, C3 |- *. rewrite fin_eq in Hf, C3 |- *. cbn [fst mkchart c_left c_right l_full l_ptrs] in *.
+    pose proof Hf as Hf0. apply orb_false_iff in Hf. destruct Hf as [Hd _]. destruct HP as [HP|HP]; [congruence|].
+    intros Z. apply HP. specialize (C3 Hf0).
+    destruct (rs_ptrs (flatf rs_init (w :: ws'))); [reflexivity|]. rewrite Z in C3. cbn in C3. lia.
+  Qed.
+
   Theorem reveal_both_sides : forall us ws vs cb cutsb ca cutsa,
     Forall (known T) us -> Forall (known T) ws -> Forall (known T) vs ->
     let U := fin (flatf rs_init us) in
@@ -1944,5 +2250,73 @@ Section RevealBefore.
     - assert (EV : c_left (fst V) = {| l_ptrs := P; l_full := false |}) by (unfold P; destruct (c_left (fst V)); cbn in *; subst; reflexivity).
       rewrite EV in H1. fold (ra N_order T dr l2 r2 P) in H1.
       destruct (ra N_order T dr l2 r2 P) as [[a3 l3] r3]. cbn [fst] in H1. lia.
+  Qed.
+
+  Lemma rb_seq_K : forall W Bk, length Bk = length W -> length W <= N_order - 1 -> forall bc l r sb sa, K l r sb sa -> sincreasing sb bc (length W) ->
+    let '(x, l1, r1) := rb_seq W Bk l r sb bc in K l1 r1 (last bc sb) sa.
+  Proof.
+    intros W Bk HBk HWN. induction bc as [|c bc IH]; intros l r sb sa HK Hi; cbn [rb_seq]; [exact HK|].
+    destruct Hi as [H1 Hi]. pose proof (sincreasing_last _ _ _ Hi) as HL.
+    assert (H2 : c <= length W) by lia.
+    pose proof (step_b_K W Bk HBk HWN l r sb sa c HK H1 H2) as HK1.
+    destruct (reveal_before N_order T dr (rvc W Bk c) sb false l r) as [[x l1] r1].
+    specialize (IH l1 r1 c sa HK1 Hi). destruct (rb_seq W Bk l1 r1 c bc) as [[x' l2] r2].
+    rewrite (last_cons bc c sb). exact IH.
+  Qed.
+
+  (* ANY interleaving of the instalments of the two sides, then the two closing calls *)
+  Theorem reveal_interleaved : forall us ws vs ops cb cutsb ca cutsa, ws <> [] ->
+    Forall (known T) us -> Forall (known T) ws -> Forall (known T) vs ->
+    let U := fin (flatf rs_init us) in
+    let Mf := fin (flatf rs_init ws) in
+    let V := fin (flatf rs_init vs) in
+    let rv := c_right (fst U) in
+    let P := l_ptrs (c_left (fst V)) in
+    bcuts ops = cb :: cutsb -> acuts ops = ca :: cutsa ->
+    sincreasing 0 (cb :: cutsb) (length (s_words rv)) -> last cutsb cb = length (s_words rv) ->
+    increasing 0 (ca :: cutsa) (length P) -> last cutsa ca = length P ->
+    let '(a, l1, r1) := run_ops (s_words rv) (s_bo rv) P (c_left (fst Mf)) (c_right (fst Mf)) 0 0 ops in
+    let '(b, l2, r2) := if l_full (c_left (fst U)) then reveal_before N_order T dr rv (length (s_words rv)) true l1 r1 else (0%Z, l1, r1) in
+    let '(c, l3, r3) := if l_full (c_left (fst V)) then reveal_after N_order T dr l2 r2 {| l_ptrs := P; l_full := true |} (length P) else (0%Z, l2, r2) in
+    (a + b + c)%Z = (snd (fin (flatf rs_init (us ++ ws ++ vs))) - snd U - snd Mf - snd V)%Z.
+  Proof.
+    intros us ws vs ops cb cutsb ca cutsa Hne Hu Hw Hv U Mf V rv P Eb Ea Hib Hlb Hia Hla.
+    assert (W0 : wf rs_init) by (constructor; cbn; [reflexivity|constructor|reflexivity]).
+    assert (WU : wf (flatf rs_init us)) by (apply flat_wf; [exact Hord|exact W0]).
+    pose proof (fin_cwf N_order _ WU) as CU. fold U in CU.
+    assert (Hsw : length (s_bo rv) = length (s_words rv)) by (destruct CU as [C1 _ _]; exact C1).
+    assert (HrvN : length (s_words rv) <= N_order - 1).
+    { unfold rv, U. rewrite fin_eq. cbn [fst mkchart c_right]. apply flat_right_len. cbn. lia. }
+    assert (HCV : chain N_order 0 P).
+    { unfold P, V. rewrite fin_eq. cbn [fst mkchart c_left l_ptrs]. apply (flat_chain N_order Hord T M Inv ext_ctx); [exact W0|exact Hv|exact I]. }
+    pose proof (frag_K ws Hne Hw) as HK0. cbn zeta in HK0. fold Mf in HK0.
+    (* sort the instalments: all of the left-hand side first *)
+    rewrite (sort_ops (s_words rv) (s_bo rv) P Hsw HrvN HCV ops _ _ 0 0 HK0 ltac:(split; [rewrite Eb; exact Hib|rewrite Ea; exact Hia])).
+    rewrite Eb, Ea, (run_sorted (s_words rv) (s_bo rv) P Hsw HrvN).
+    pose proof (rb_seq_K (s_words rv) (s_bo rv) Hsw HrvN (cb :: cutsb) _ _ 0 0 HK0 Hib) as HK1.
+    pose proof (reveal_both_sides us ws vs cb cutsb (length P) [] Hu Hw Hv) as HB. cbn zeta in HB. fold U Mf V rv P in HB.
+    specialize (HB Hib Hlb ltac:(cbn [increasing]; lia) eq_refl).
+    destruct (rb_seq (s_words rv) (s_bo rv) (c_left (fst Mf)) (c_right (fst Mf)) 0 (cb :: cutsb)) as [[a1 l1] r1].
+    change (last (cb :: cutsb) 0) with (last (cb :: cutsb) 0) in HK1. rewrite (last_cons cutsb cb 0), Hlb in HK1.
+    (* the right-hand side in one call *)
+    rewrite (ra_seq_one_shot N_order Hord T dr cutsa ca l1 r1 P 0 (K_J _ _ _ _ HK1) HCV Hia). rewrite Hla. cbn [skipn]. rewrite firstn_all.
+    cbn [ra_seq] in HB. rewrite firstn_all in HB.
+    assert (RA0 : forall l0 r0, reveal_after N_order T dr l0 r0 {| l_ptrs := P; l_full := false |} 0 = ra N_order T dr l0 r0 P) by (intros; rewrite ra_seen; reflexivity).
+    destruct (l_full (c_left (fst U))) eqn:EfU.
+    - pose proof (closing_commutes_ra rv l1 r1 P (length (s_words rv)) 0 Hsw HK1 HCV) as HCm.
+      destruct (ra N_order T dr l1 r1 P) as [[y l1a] r1a].
+      destruct (reveal_before N_order T dr rv (length (s_words rv)) true l1a r1a) as [[z l2a] r2a].
+      destruct (reveal_before N_order T dr rv (length (s_words rv)) true l1 r1) as [[z' l2] r2].
+      rewrite (RA0 l2 r2) in HB.
+      destruct (ra N_order T dr l2 r2 P) as [[y' l3] r3].
+      injection HCm as E1 E2 E3. subst l3 r3.
+      destruct (l_full (c_left (fst V))).
+      + destruct (reveal_after N_order T dr l2a r2a {| l_ptrs := P; l_full := true |} (length P)) as [[c l4] r4]. lia.
+      + lia.
+    - rewrite (RA0 l1 r1) in HB.
+      destruct (ra N_order T dr l1 r1 P) as [[y l1a] r1a].
+      destruct (l_full (c_left (fst V))).
+      + destruct (reveal_after N_order T dr l1a r1a {| l_ptrs := P; l_full := true |} (length P)) as [[c l4] r4]. lia.
+      + lia.
   Qed.
 End RevealBefore.
